@@ -19,6 +19,7 @@ import (
 	"errors"
 	"fmt"
 	"io/ioutil"
+	"math/big"
 	"os"
 	stdlog "log"
 	"runtime"
@@ -111,8 +112,8 @@ type c16Probe struct {
 	Complete bool     `json:"complete"`
 	WPos     string   `json:"wpos"`
 	GoState  string   `json:"gostate"`
-	Dumped   float64  `json:"dumped"` // cumulative AgentQueueDumped
-	SentM    float64  `json:"sentm"`  // cumulative Span/Sent
+	Dumped   string   `json:"dumped"` // cumulative AgentQueueDumped (exact decimal of the float64 values' sum)
+	SentM    string   `json:"sentm"`  // cumulative Span/Sent
 }
 
 type c16Event struct {
@@ -166,8 +167,8 @@ type c16Run struct {
 	cloneOk     bool
 	counts      map[uint64]uint64
 	received    [][2]uint64
-	dumped      float64
-	sentM       float64
+	dumped      *big.Int
+	sentM       *big.Int
 	unsettled   int
 }
 
@@ -343,15 +344,16 @@ func (r *c16Run) probe(peek bool) {
 	p.NSent = len(to.messagesSent)
 	if !to.isAppShutdownInitiated() {
 		for name, v := range to.DumpSupportabilityMetrics() {
+			bi, _ := new(big.Float).SetFloat64(v[0]).Int(nil)
 			switch name {
 			case supportabilityQueueDumped:
-				r.dumped += v[0]
+				r.dumped.Add(r.dumped, bi)
 			case supportabilitySent:
-				r.sentM += v[0]
+				r.sentM.Add(r.sentM, bi)
 			}
 		}
 	}
-	p.Dumped, p.SentM = r.dumped, r.sentM
+	p.Dumped, p.SentM = r.dumped.String(), r.sentM.String()
 	r.log(c16Event{K: "probe", Probe: p})
 }
 
@@ -362,7 +364,8 @@ func c16RunScenario(sc c16Scenario) c16Out {
 	to, worker := newTraceObserverWithWorker(&Config{QueueSize: sc.Q})
 	r := &c16Run{to: to, connectGate: make(chan c16Gate), sendGate: make(chan c16Gate),
 		sleepGate: make(chan struct{}), abandon: make(chan struct{}),
-		respCh: make(chan spanBatchSenderStatus, 10), cloneOk: true, counts: map[uint64]uint64{}}
+		respCh: make(chan spanBatchSenderStatus, 10), cloneOk: true, counts: map[uint64]uint64{},
+		dumped: new(big.Int), sentM: new(big.Int)}
 	to.sender = &c16Sender{r: r}
 	started := make(chan struct{})
 	go func() {
